@@ -55,7 +55,11 @@ def integ_case(draw, tier):
     return {"w_nm": w, "grid": kind, "v1": rng.uniform(-2, 3, size=n) * vs, "v2": rng.uniform(-2, 3, size=n) * vs,
             "a": draw(gen.finite(-3, 3)), "b": draw(gen.finite(-3, 3)), "idx": [i0, i1, i2],
             "unit": draw(st.sampled_from(UNITS)), "method": draw(st.sampled_from(["trapz", "simps"])),
-            "bounds": draw(st.sampled_from(["none", "samples", "between"]))}
+            "bounds": draw(st.sampled_from(["none", "samples", "between", "outside", "outside"])),
+            # limits beyond the data: an interval that holds no sample integrates to 0, one that holds them all to the
+            # whole integral; 0 is a legitimate limit (below every wavelength), in any numeric type
+            "outside": draw(st.sampled_from(["empty_below", "empty_below_zero", "empty_above", "zero_start", "wider", "first_only"])),
+            "zero": draw(st.sampled_from(["int", "float", "uint8", "float64", "bool"]))}
 
 
 @hyp("C15", "integrate", lambda tier: integ_case(tier),
@@ -78,6 +82,28 @@ def integrate(case, ctx):
     elif case["bounds"] == "samples":
         lo, hi = w[i0], w[i2]
         sel = slice(i0, i2 + 1)
+    elif case["bounds"] == "outside":
+        zero = {"int": 0, "float": 0.0, "uint8": np.uint8(0), "float64": np.float64(0), "bool": False}[case.get("zero", "int")]
+        o = case.get("outside", "wider")
+        ctx.tag("outside:" + o, "zero:" + case.get("zero", "int") if "zero" in o else None)
+        if m == "simps" and o.startswith("empty"):
+            raise Skip("simpson_on_an_empty_selection")          # scipy's rule has no value for zero samples
+        if o == "empty_below":
+            lo, hi, sel = 0.25 * w[0], 0.5 * w[0], slice(0, 0)
+        elif o == "empty_below_zero":
+            lo, hi, sel = (None if i0 % 2 else -1.0 * f), zero, slice(0, 0)
+        elif o == "empty_above":
+            lo, hi, sel = 1.5 * w[-1], (None if i0 % 2 == 0 else 2.0 * w[-1]), slice(0, 0)
+            if hi is None:
+                hi = 3.0 * w[-1]
+        elif o == "zero_start":
+            lo, hi, sel = zero, w[i2], slice(0, i2 + 1)
+        elif o == "first_only":
+            lo, hi, sel = zero, w[0], slice(0, 1)
+            if m == "simps":
+                raise Skip("simpson_on_a_single_sample")
+        else:
+            lo, hi, sel = 0.5 * w[0], 2.0 * w[-1], slice(0, len(w))
     else:   # limits strictly between samples: only the samples inside count
         lo = w[i0] - 0.25 * (w[i0] - (w[i0 - 1] if i0 > 0 else w[i0] - 1.0 * f))
         hi = w[i2] + 0.25 * ((w[i2 + 1] if i2 < len(w) - 1 else w[i2] + 1.0 * f) - w[i2])
